@@ -10,8 +10,8 @@ LEAN_AUDIT = "Dashu.Audit.C16"
 # Tie A, typed translator: the entry guards (prologues) of powf / ln / ln_1p / sqrt / div / ulp, IBig::nth_root / sqrt,
 # in_radix, from_parts regenerated from /repo and proved equal to the hand-mirrored guards of `Model/Panic/Guards.lean`
 USES_GEN = True
-GEN_PROPS = ["Dashu.Props.GenGuards"]
-GEN_AUDIT = ["Dashu.Audit.GenGuards"]
+GEN_PROPS = ["Dashu.Props.GenGuards", "Dashu.Props.C16Gen"]
+GEN_AUDIT = ["Dashu.Audit.GenGuards", "Dashu.Audit.C16Gen"]
 JOBS = 14
 
 # the supervisor in exec_panic decides `hang` on the worker's CPU time (not wall time: a loaded machine must not turn a
@@ -41,19 +41,44 @@ REFINED = ["entry guards mirrored from the code and proved equivalent to the doc
            "RBig::farey_neighbors loop (fuel model): terminates within `limit` iterations; needs exactly `limit` for x = 1/(limit+1)",
            "float ln series loop (fuel model over Rat): terminates for 0 <= z <= 1/3 (x > 0 after scaling, the only input that "
            "reaches it since the ln guard); as-is counterexample for the pre-fix code: never terminates for z >= 2 (x < 0)",
-           "float parser marker search: byte offsets returned for ASCII markers are UTF-8 boundaries"]
-FRONTIER = ["guards not mirrored (all are recorded findings or size estimates): UBig/IBig/RBig::pow result-size reservations, "
-            "from_chunks sizing, RBig::to_float(0) (bare assert), the overflow test of exp beyond |x| = 2^61 (transcendental "
-            "threshold), Reduced::inv (taken at its specification; refined in C13)",
+           "float parser marker search: byte offsets returned for ASCII markers are UTF-8 boundaries",
+           "round 5: size RESERVATIONS mirrored (Model/Panic/Guards5.lean), executed by the driver for every u.pow / i.pow / q.pow / "
+           "u.from_chunks case and proved (64-bit words, all arguments): math::max_exp_in_word meets its specification (base^k <= "
+           "Word::MAX, k >= 1, every word size); pow_word_base and pow_dword_base: (S1) documented AllocTooMuch => the reservation "
+           "is refused with AllocTooMuch, (S2) refused => the documentation does not say `returns`; a pure power of two: full "
+           "equivalence (exp.checked_mul(shift) + the exact `1 << n` request); Repr::from_chunks: (S1) when the unchecked "
+           "`result_len` stays inside usize, (S2) for chunks of <= 2^32 words; counterexample theorems for the converse of (S1) "
+           "(findings pow_dword_estimate, from_chunks_size_arithmetic), for the missing reservation of >= 3-word bases (finding "
+           "pow_large_base_no_precheck) and for result_len leaving usize",
+           "round 5: RBig/Relaxed::to_float: the bare assert fails iff UnlimitedPrecision is documented (both ops, every precision); "
+           "FBig Sum / Product: the fold stops with Infinite at the first infinite element iff documented (lists of any length); "
+           "UBig/IBig Sum / Product, UBig/IBig/RBig Hash: no documented panic for any argument list; FBig::ulp re-stated with the "
+           "exponent-underflow clause (partial: precision <= 2^62, counterexample at precision 2^63)",
+           "round 5 Tie A (Props/C16Gen.lean over Gen/Scratch.lean + the new Gen/SizeGuards.lean): pow_word_base path / buffer words, "
+           "pow_dword_base buffer words, max_exp_in_word shortcut / start exponent / loop step, from_chunks assert + result_len, "
+           "rational to_float assert / no-scaling test / shift are REGENERATED from the Rust text and proved equal to the mirrored "
+           "definitions the driver executes"]
+FRONTIER = ["reservations only partly tied to the documentation: pow of an EVEN base with odd part > 1 (second-stage `<<` request depends "
+            "on the value odd^e: `guardPow = none`, decided by correspondence); pow of a >= 3-word base (no reservation exists in the "
+            "code: finding, counterexample theorem); the converse of (S1) is false in the band between reservation and result size "
+            "(counterexample theorems) — these are facts about the code, not gaps of the model",
+            "the overflow test of exp beyond |x| = 2^61 (transcendental threshold), Reduced::inv (taken at its specification; refined in C13)",
             "that the BODIES behind the guards never panic / always terminate is proved only for the modelled loops (farey, ln, exp, "
-            "iacoth, ilog fixing, remove stage 1, pow bit loop); Newton root iteration and the gcd loops have fuel-bound theorems in "
-            "C12's model, not repeated here; everything else (multiplication, division, parsing, formatting kernels) is observed by "
-            "the correspondence (per-case wall limit, termination stream with sizes up to 2*10^6 bits / 20000 digits), not proved",
-            "float operands with |exponent| > 2^61 (all ops except shl/shr/mul/sqr/cubic/powi of +-B^k), result sizes between "
-            "2^30 and 2^38 bits: the transcription returns `unspecified`, not exercised",
+            "iacoth, ilog fixing, remove stage 1, pow bit loop, max_exp_in_word loop invariant); Newton root iteration and the gcd loops "
+            "have fuel-bound theorems in C12's model, not repeated here; everything else (multiplication, division, parsing, formatting "
+            "kernels) is observed by the correspondence (per-case CPU limit, termination stream up to 2*10^6 bits / 20000 digits), not proved",
+            "float operands with |exponent| > 2^61: the transcription answers only where the code has an explicit rule (shl/shr exact, "
+            "mul/sqr/cubic/powi of +-B^k, from_parts, ulp underflow); all other ops return `unspecified` there — no executable rule can "
+            "be given without the rounding position of the result; result sizes between 2^30 and 2^38 bits: `unspecified` (whether the "
+            "allocator succeeds under the 4 GiB cap is a fact about the environment; not exercised to keep the shared machine usable)",
+            "float operands whose context precision is > 2^62: only the exact-result ops are transcribed and driven (add sub mul sqr cubic "
+            "powi cmp rounding ops conversions ulp); div/sqrt/exp/ln/powf/inv at such precisions are not generated (result needs p digits)",
             "operator impls of UBig/IBig in all primitive/reference forms: covered by group `forms` (C15), not repeated here",
-            "not driven: serde/rand/num-traits/zeroize integrations, macros crate, Buffer-level internals, Hash/Sum/Product, "
-            "FBig Display with huge exponents, dashu::Natural/Integer aliases"]
+            "not driven: num-traits / num-integer / rand / zeroize / serde integrations (need cargo features + lockfile entries the shared "
+            "offline harness manifest does not have; adding them changes every group's dependency resolution), macros crate, Buffer-level "
+            "internals, FBig Display with huge exponents; dashu::Natural/Integer/Real/Decimal/Rational are `pub type` aliases (checked "
+            "textually in pre_build): the compiler makes them the driven types, no separate run can add information; RBig/Relaxed have NO "
+            "Sum/Product impl (rational/src/iter.rs is not a module of the crate — reported)"]
 RULE = ("One case = one public API call at a domain edge; both sides print only HOW the call ends (ok | panic <Kind> | hang | crash). "
         "Integers: parsers (from_str_radix / with_radix_prefix / with_radix_default / FromStr, UBig and IBig) on a pool of ~60 strings "
         "(empty, signs only, `_`, prefixes without digits, non-ASCII and multi-byte UTF-8 at every position, NUL, spaces) x radix "
@@ -65,11 +90,18 @@ RULE = ("One case = one public API call at a domain edge; both sides print only 
         "below 0, parse on ~110 strings with multi-byte UTF-8 around every marker (. e E @ p P b B 0x _ + -). Rationals: zero denominators, "
         "division by zero, pow, nearest/next_up/next_down with limit {0,1,2,10, 2^16, 10^8, 2^64-1, 10^20}, parse pool incl. `1/0`. "
         "Thorough tier repeats every case in the release build of the harness (`R/` prefix) and adds seeded random strings / operands. "
+        "Round 5 (addendum E): every usize / isize / u32 argument of every cheap op with {0,1,63,64,65,128,2^31,2^32-1,2^32,2^32+k,2^63-1,2^63,"
+        "2^63+1,usize::MAX-k} (k sampled in quick, every k < 131 in thorough); allocating ops with one value per outcome kind; context "
+        "precisions {2^31,2^32,2^63-1,2^63,MAX/3(+1),MAX/2(+1),MAX-130..MAX} on the exact-result float ops; RBig::to_float per base at "
+        "every precision class incl. the `precision + den_digits` overflow edge; every byte 0x00..0x7f and three multi-byte chars in "
+        "every syntactic position of the integer / float / rational parsers; pow around exp = wexp, 2*wexp for odd bases of EVERY bit "
+        "length 2..64; in_radix of r^n-1, r^n, r^n+1 for every radix at 63..192 bits; nth_root / ilog / remove on k^n-1, k^n, k^n+1 for k "
+        "of every bit length; Sum/Product/Hash over size-class lists with infinities at every position. "
         "Non-trivial := the documentation predicts a panic, or an argument is at a domain edge (every generated case); distinct := "
         "distinct (op,args) lines.")
 EXPLANATION = ("The model of this property is the documentation: Spec/Panics.lean transcribes the rustdoc `# Panics` sections, the "
                "trait/type level docs and the central panic helpers into a decidable `verdict : Op -> Args -> returns | panics k | "
-               "unspecified` (146 operations). Proved: every kind it returns is a documented one; for all 146 operations but 4 (pow x3, to_float) the entry guards / absence of guards "
+               "unspecified` (157 operations). Proved: every kind it returns is a documented one; for all but the pow family (reservations: the two implications S1/S2, executed per case) the entry guards / absence of guards "
                "mirrored from the code fail with kind k iff the documentation names k; the Farey walk terminates within `limit` steps and "
                "needs `limit` steps on 1/(limit+1) (the linear-time finding, made precise); ln/ln_1p now guard their domain (proved "
                "equivalent to the documentation) so the series loop is entered only where it provably terminates; for the pre-fix "
@@ -79,8 +111,8 @@ ASSUMPTIONS = ["Spec/Panics.lean is a faithful transcription of the rustdoc (it 
                "the harness address-space cap (4 GiB) turns allocation failure into the documented `out of memory` panic",
                "per-case CPU-time limit (20 s quick, 120 s thorough; 6x for the termination stream) distinguishes termination from non-termination for the generated sizes"]
 LEVEL_TEXT = ("PARTIAL. Lean 4 theorems: the transcription of the documentation is total and only names documented kinds; the entry "
-              "guards of 142 of the 146 operations (mirrored from the code) are equivalent to it; two loops whose termination is the "
-              "question are modelled with fuel and their (non-)termination is proved. The rest of the public API (146 ops in total) is "
+              "guards of 153 of the 157 operations (mirrored from the code) are equivalent to it (pow / from_chunks reservations: implications S1, S2 + counterexamples; regenerated from source, Tie A); two loops whose termination is the "
+              "question are modelled with fuel and their (non-)termination is proved. The rest of the public API (157 ops in total) is "
               "decided by correspondence only: each call runs in a supervised worker (panic capture, CPU-time limit, address-space cap) in "
               "the debug build and, in the thorough tier, the release build, and its outcome class is compared with the transcription.")
 LEVEL_NOTE = ("Trusted: Lean kernel; axioms propext/Classical.choice/Quot.sound; the transcription of the rustdoc; the harness, its "
@@ -91,11 +123,16 @@ THEOREMS = ["Dashu.Props.C16." + t for t in (
     "documented_is_total documented_never_undocumented kind_names_agree kind_names_distinct ubig_sub_guard "
     "ubig_div_family_guard ibig_div_family_guard ubig_gcd_guard ibig_gcd_guard ubig_nth_root_guard ibig_nth_root_guard "
     "ibig_sqrt_guard ubig_ilog_guard ibig_ilog_guard in_radix_guard const_divisor_new_guard rbig_from_parts_guard "
-    "rbig_limit_guard fbig_add_sub_guard fbig_div_guard fbig_sqrt_guard fbig_ulp_guard ubig_is_multiple_of_const_guard "
+    "rbig_limit_guard fbig_add_sub_guard fbig_div_guard fbig_sqrt_guard fbig_ulp_guard_partial fbig_ulp_guard_counterexample ubig_is_multiple_of_const_guard "
     "ibig_is_multiple_of_const_guard fbig_split_at_point_guard fbig_euclid_guard fbig_powf_guard fbig_ln_guard "
     "fbig_ln_1p_guard fbig_finite_only_guard fbig_mul_guard_partial fbig_mul_guard_counterexample fbig_sqr_guard_partial fbig_cubic_guard_partial fbig_rem_guard fbig_inv_guard fbig_exp_guard_partial fbig_powi_guard_partial fbig_shl_guard_partial fbig_shr_guard_partial fbig_shl_guard_counterexample fbig_to_binary_guard fbig_to_decimal_guard_partial fbig_to_decimal_guard_counterexample fbig_from_repr_guard rbig_from_parts_signed_guard rbig_inv_guard rbig_div_family_guard rbig_div_int_guard const_divisor_from_word_guard const_divisor_from_dword_guard const_divisor_use_guard reduced_different_rings_guard to_chunks_guard ubig_in_radix_guard ones_alloc_guard set_bit_alloc_guard shl_alloc_guard_partial shl_alloc_band_counterexample parse_radix_never_panics parse_never_panics unary_int_never_panics int_index_never_panics remove_never_panics from_ieee_never_panics float_cmp_never_panics float_conv_never_panics with_precision_never_panics float_ctor_never_panics ratio_parse_never_panics ratio_unary_never_panics ratio_binary_never_panics fbig_info_guard reduced_same_ring_guard from_chunks_zero_guard ishl_alloc_guard_partial fbig_from_parts_guard_partial fbig_from_parts_guard_counterexample exp_series_terminates iacoth_series_terminates ilog_fix_returns remove_returns pow_bit_loop_terminates farey_terminates "
     "farey_needs_limit_steps ln_positive_terminates ln_negative_never_terminates ascii_cuts_safe "
-    "float_parser_cuts_safe").split()]
+    "float_parser_cuts_safe "
+    "max_exp_in_word_spec pow_word_reservation_sound_partial pow_word_refused_not_returns pow_dword_reservation_sound_partial pow_dword_refused_not_returns pow_dword_band_counterexample pow_large_no_reservation_counterexample pow_two_reservation_guard from_chunks_reservation_sound_partial from_chunks_refused_not_returns from_chunks_overallocation_counterexample from_chunks_arithmetic_unchecked_counterexample rbig_to_float_assert_guard fbig_sum_guard fbig_product_guard int_fold_never_panics hash_never_panics rbig_to_float_b_assert_guard").split()]
+
+THEOREMS += ["Dashu.Props.C16Gen." + t for t in (
+    "pow_word_request_is_generated pow_dword_request_is_generated max_exp_loop_is_generated max_exp_in_word_is_generated "
+    "from_chunks_len_is_generated from_chunks_guard_is_generated to_float_assert_is_generated to_float_shift_is_generated").split()]
 
 M = 2 ** 64 - 1
 IMAX = 2 ** 63 - 1
@@ -573,12 +610,208 @@ def panic_condition_cases(rng, tier):
             yield Case("u.shl", [hx(x), D(n)]); yield Case("i.shl", [hx(-x), D(n)]); yield Case("u.shr", [hx(x), D(n)]); yield Case("i.shr", [hx(-x), D(n)])
 
 
+# ------------------------------------------------------------------ round 5 streams
+
+def e1_values(tier, lo_only=False):
+    """ROUND4 addendum E1: extreme machine-integer arguments (usize).  Quick: a sample of the k; thorough: every k"""
+    ks = range(0, 131) if tier == "thorough" else (0, 1, 2, 31, 32, 62, 63, 64, 65, 127, 128, 129, 130)
+    vs = [0, 1, 63, 64, 65, 128, 2 ** 31, 2 ** 32 - 1, 2 ** 32] + [2 ** 32 + k for k in ks]
+    if not lo_only:
+        vs += [2 ** 63 - 1, 2 ** 63, 2 ** 63 + 1] + [M - k for k in ks]
+    return vs
+
+
+def to_float_b_verdict(n, d, kind, p, base):
+    """mirror of Spec/Panics.lean qToFloatB (None = unspecified)"""
+    import math
+    if p == 0:
+        return "UnlimitedPrecision"
+    if n == 0 or p <= 2 ** 20:
+        return "ok"
+    dd = d // math.gcd(abs(n), d)
+    while math.gcd(dd, base) > 1:
+        dd //= math.gcd(dd, base)
+    if dd == 1:
+        return "ok"
+    lo, hi = (p, p) if base == 2 else (3 * p, 4 * p)
+    return _alloc_range(lo, hi)
+
+
+def round5_cases(rng, tier):
+    th = tier == "thorough"
+    B = 1 << 64
+    V = size_class_values()
+    # ---- core::iter::Sum / Product, Hash (integer/src/iter.rs, float/src/iter.rs, derived Hash, rational/src/cmp.rs)
+    lists = [[], [0], [1], [0, 0], [B - 1, 1], [B * B - 1, 1], V, V[::-1], [0] + V, [5, 0, 7], [B ** 3 + 5] * 4,
+             [3] * 100, [B + 1] * 40, [1, B, B * B, B ** 3, B ** 4]]
+    for l in lists:
+        yield Case("u.sum", [hx(x) for x in l]); yield Case("u.product", [hx(x) for x in l])
+        yield Case("i.sum", [hx(-x if i % 2 else x) for i, x in enumerate(l)])
+        yield Case("i.product", [hx(-x if i % 3 == 0 else x) for i, x in enumerate(l)])
+        yield Case("i.sum", [hx(-x) for x in l])
+    for x in V:
+        yield Case("u.hash", [hx(x)]); yield Case("i.hash", [hx(x)]); yield Case("i.hash", [hx(-x)])
+        yield Case("q.hash", [hx(-x), hx(max(x, 1) + 2), "k:R"]); yield Case("q.hash", [hx(x), hx(1), "k:R"])
+    for base in (2, 10):
+        for p in (0, 1, 20):
+            Vf = float_operands(base, p)
+            fin = [Vf[k] for k in ("zero", "one", "mthree", "big", "nsmall", "e30", "em30")]
+            for l in ([Vf["one"]], [Vf["inf"]], [Vf["ninf"]], fin, fin[::-1], [Vf["inf"]] + fin, fin + [Vf["ninf"]],
+                      fin[:3] + [Vf["inf"]] + fin[3:], [Vf["zero"], Vf["inf"]], [Vf["zero"]] * 5, [Vf["inf"], Vf["ninf"]],
+                      [Vf["tiny"], Vf["huge"], Vf["mhuge"]], fin * 6):
+                yield Case("f.sum", list(l)); yield Case("f.product", list(l))
+    # ---- E1: extreme machine-integer arguments of every cheap op
+    E = e1_values(tier)
+    xs3 = (5, (1 << 64) + 1, (1 << 175) - 1)
+    for n in E:
+        for x in xs3:
+            yield Case("u.shr", [hx(x), D(n)]); yield Case("i.shr", [hx(-x), D(n)])
+            yield Case("u.bit", [hx(x), D(n)]); yield Case("i.bit", [hx(-x), D(n)])
+            yield Case("u.clear_bit", [hx(x), D(n)])
+            yield Case("u.split_bits", [hx(x), D(n)]); yield Case("u.clear_high_bits", [hx(x), D(n)])
+        yield Case("u.shl", [hx(0), D(n)]); yield Case("i.shl", [hx(0), D(n)])
+        yield Case("u.pow", [hx(0), D(n)]); yield Case("u.pow", [hx(1), D(n)]); yield Case("i.pow", [hx(-1), D(n)])
+        yield Case("q.pow", [hx(-1), hx(1), "k:R", D(n)]); yield Case("q.pow", [hx(0), hx(1), "k:X", D(n)])
+        for x in (0, 1, 5, (1 << 200) + 1):
+            yield Case("u.nth_root", [hx(x), D(n)]); yield Case("i.nth_root", [hx(-x), D(n | 1)])
+        for x in (0, 5, 1 << 100):
+            yield Case("u.to_chunks", [hx(x), D(n)])
+        for cs in ([], [1], [(1 << 100) + 1]):
+            yield Case("u.from_chunks", [D(n)] + [hx(c) for c in cs])
+        for base in (2, 10):
+            Z = F(base, 0, 0, 1)
+            yield Case("f.with_precision", [F(base, 3, 0, 5), D(n)]); yield Case("f.with_precision", [F(base, 0, 0, 0), D(n)])
+            yield Case("f.from_int", [hx(-255), D(n), Z])
+    # the allocating ops: one value of each kind where the documentation names an allocation panic
+    for n in [2 ** 63 - 1, 2 ** 63, 2 ** 63 + 1] + [M - k for k in (0, 1, 62, 63, 64, 65, 127, 128, 129, 130, 200)]:
+        for x in (1, 3, (1 << 64) + 1):
+            # the band right below MAX_CAPACITY words is outside the generator (shl_alloc_band_counterexample)
+            if _alloc(x.bit_length() + n) == "AllocTooMuch" or (x.bit_length() + n + 63) // 64 + 2 <= (2 ** 64 - 1) // 64:
+                yield Case("u.shl", [hx(x), D(n)]); yield Case("i.shl", [hx(-x), D(n)])
+        yield Case("u.set_bit", [hx(0), D(n)]); yield Case("u.set_bit", [hx(5), D(n)])
+        if not (n % 64 == 0 and n // 64 == (2 ** 64 - 1) // 64):
+            yield Case("u.ones", [D(n)])
+        for x in (2, 4, 1 << 63, 3, 10, (1 << 32) + 1, (1 << 64) - 1, 6, 12):
+            if pow_ok_to_generate(x, n):
+                yield Case("u.pow", [hx(x), D(n)]); yield Case("i.pow", [hx(-x), D(n)])
+    # isize arguments
+    IE = [0, 1, -1, 63, 64, 65, 2 ** 31, -2 ** 31, 2 ** 32 - 1, 2 ** 32, -2 ** 32] + \
+         [s * (2 ** 32 + k) for k in (0, 1, 64, 129) for s in (1, -1)] + \
+         [IMAX - k for k in ((0, 1, 2, 63, 64, 65, 129, 130) if not th else range(0, 131))] + \
+         [IMIN + k for k in ((0, 1, 2, 63, 64, 65, 129, 130) if not th else range(0, 131))]
+    for base in (2, 10):
+        Z = F(base, 0, 0, 1)
+        for n in IE:
+            for a in (F(base, 3, 0, 5), F(base, -1, 7, 0), F(base, 0, 0, 3)):
+                yield Case("f.shl", [a, D(n)]); yield Case("f.shr", [a, D(n)])
+            yield Case("f.from_parts", [hx(3), D(n), Z]); yield Case("f.from_parts", [hx(0), D(n), Z])
+            if n + 2 <= IMAX:
+                yield Case("f.from_parts", [hx(-base * base), D(n), Z])
+    # u32 arguments (radices)
+    for r in (3, 35, 63, 64, 65, 128, 255, 256, 2 ** 16, 2 ** 31 - 1, 2 ** 31, 2 ** 31 + 1, 2 ** 32 - 2):
+        for s in ("", "0", "12", "zz", "-1", "_"):
+            yield Case("u.from_str_radix", [S(s), D(r)]); yield Case("i.from_str_radix", [S(s), D(r)])
+            yield Case("u.from_str_default", [S(s), D(r)]); yield Case("q.from_str_radix", [S(s + "/1"), D(r), "k:R"])
+        yield Case("u.in_radix", [hx(255), D(r)]); yield Case("i.in_radix", [hx(-(1 << 200)), D(r)])
+    # precision of RBig::to_float (one base per call): every class of the documentation + the overflow edge
+    for (n, d) in ((1, 3), (1, 10), (1, 8), (5, 1), (3, 4), (0, 1), (-7, 3), (1 << 200, 3), (1, (1 << 70) + 1), (-9, 1000)):
+        for K in ("k:R", "k:X"):
+            for base in (2, 10):
+                ps = [1, 2, 63, 64, 65, 128, 1000, 2 ** 38, 2 ** 40, 2 ** 61, 2 ** 63 - 1, 2 ** 63, 2 ** 63 + 1, M - 200, M - 1000] + \
+                     [M - k for k in (range(0, 63) if th else (0, 1, 2, 3, 4, 31, 61, 62))]
+                for pp in ps:
+                    if to_float_b_verdict(n, d, K, pp, base) is None:
+                        continue
+                    yield Case("q.to_float_b", [hx(n), hx(d), K, D(pp), D(base)])
+    # E1 for the PRECISION carried by float operands (Context::new(p), p a usize): operations whose result is exact
+    for base in (2, 10):
+        for pr in [2 ** 31, 2 ** 32, 2 ** 63 - 1, 2 ** 63, M // 3, M // 3 + 1, M // 2, M // 2 + 1, M - 130, M - 65, M - 64, M - 2, M - 1, M]:
+            a = F(base, 3, 0, pr); b = F(base, -7, 2, pr); c = F(base, 5, -3, 7)
+            for op in ("add", "sub", "mul", "cmp", "rem"):
+                yield Case("f." + op, [a, b]); yield Case("f." + op, [a, c]); yield Case("f." + op, [c, b])
+            for op in ("sqr", "cubic", "to_int", "trunc", "fract", "ceil", "floor", "round", "split_at_point", "ulp", "to_f32", "to_f64",
+                       "neg_abs", "fmt", "to_int_try", "info", "to_ratio"):
+                yield Case("f." + op, [a]); yield Case("f." + op, [b])
+            for e in (0, 1, 2, 5):
+                yield Case("f.powi", [a, hx(e)])
+            yield Case("f.shl", [a, D(5)]); yield Case("f.shr", [b, D(-5)])
+            yield Case("f.with_precision", [a, D(3)]); yield Case("f.with_precision", [a, D(M)])
+            yield Case("f.sum", [a, b, a]); yield Case("f.product", [a, b])
+    # exp / exp_m1 / ln_1p of arguments with a hugely NEGATIVE exponent (result 1, x, x): cost must not follow |exponent|
+    for (base, ok_e, bad_e) in ((2, (-2 ** 20, -2 ** 30), (-2 ** 36, -2 ** 40, -2 ** 61)), (10, (-2 ** 16, -2 ** 20), (-2 ** 32, -2 ** 40, -2 ** 61))):
+        for e in ok_e + bad_e:
+            for (sg, p) in ((1, 10), (-3, 2), (7, 40)):
+                if e in bad_e and not th and (sg, p) != (1, 10):
+                    continue
+                yield Case("f.exp", [F(base, sg, e, p)]); yield Case("f.exp_m1", [F(base, sg, e, p)])
+                if sg > 0:      # (the transcription of ln_1p's domain test x <= -1 evaluates B^-exp for negative x)
+                    yield Case("f.ln_1p", [F(base, sg, e, p)])
+    # ---- E2: every ASCII byte (and three multi-byte chars) in every syntactic position of the parsers
+    chars = [chr(i) for i in range(128)] + ["é", "１", "\U0001F600"]
+    it = [("{c}", "{c}1", "1{c}", "1{c}2", "-{c}", "+{c}1", "0x{c}", "0{c}1", "1_{c}", "{c}_1"), ("{c}", "1{c}2", "-{c}1", "0x{c}1")]
+    ft = [("{c}", "1{c}", "{c}1", "1{c}5", "1.{c}", "1.{c}5", "1e{c}", "1e{c}5", "1e+{c}", "0x{c}", "0x1{c}", "0x1.{c}p1", "0x1p{c}", "0x1p{c}2",
+           "{c}.5", "1.5{c}", "-{c}", "1_{c}", "1.5e3{c}", "{c}e5"), ("{c}", "1{c}5", "1.{c}", "1e{c}5", "0x1{c}", "0x1p{c}", "1.5{c}")]
+    qt = [("{c}", "{c}/1", "1/{c}", "1{c}2", "1/{c}2", "1/2{c}", "1{c}/2", "-{c}/1", "0x{c}/1", "1/0x{c}"), ("{c}/1", "1/{c}", "1{c}2", "1/2{c}")]
+    for ci, c in enumerate(chars):
+        for t in it[0 if th else 1]:
+            s = t.replace("{c}", c)
+            yield Case("u.from_str_radix", [S(s), D(10)]); yield Case("i.from_str_radix", [S(s), D(36)])
+            yield Case("i.from_str_prefix", [S(s)])
+            if th:
+                yield Case("u.from_str_radix", [S(s), D(16)]); yield Case("u.from_str_prefix", [S(s)]); yield Case("i.from_str", [S(s)])
+                yield Case("u.from_str_default", [S(s), D(2)])
+        for t in ft[0 if th else 1]:
+            s = t.replace("{c}", c)
+            for base in ((2, 10) if th else ((2, 10)[ci % 2],)):
+                yield Case("f.parse", [S(s), F(base, 0, 0, 1)])
+        for t in qt[0 if th else 1]:
+            s = t.replace("{c}", c)
+            K = ("k:R", "k:X")[ci % 2]
+            yield Case("q.parse", [S(s), K]); yield Case("q.from_str_prefix", [S(s), "k:X" if K == "k:R" else "k:R"])
+            if th:
+                yield Case("q.from_str_radix", [S(s), D(36), K]); yield Case("q.parse", [S(s), "k:X" if K == "k:R" else "k:R"])
+    # ---- E2: boundary magnitudes k^n +- 1 for k of EVERY bit length
+    for L in range(2, 65):
+        for b in ((1 << (L - 1)) + 1, (1 << L) - 1):
+            if b % 2 == 0 or b < 3:
+                continue
+            # thresholds of pow_word_base: exp < wexp, exp < 2*wexp (wexp = max_exp_in_word(b))
+            w, pw = 1, b
+            while pw * b < 1 << 64:
+                pw *= b; w += 1
+            for e in {w - 1, w, w + 1, 2 * w - 1, 2 * w, 2 * w + 1, 3 * w} - {0}:
+                yield Case("u.pow", [hx(b), D(e)])
+                if th or L % 4 == 0:
+                    yield Case("i.pow", [hx(-b), D(e)]); yield Case("u.pow", [hx(b << 3), D(e)])
+    for r in range(2, 37):
+        for bits in (63, 64, 65, 128, 192):
+            n = 1
+            while (r ** (n + 1)).bit_length() <= bits:
+                n += 1
+            for x in (r ** n - 1, r ** n, r ** n + 1):
+                yield Case("u.in_radix", [hx(x), D(r)])
+                if th or bits in (64, 128):
+                    yield Case("i.in_radix", [hx(-x), D(r)])
+    for L in (range(1, 131) if th else list(range(1, 70, 3)) + [63, 64, 65, 127, 128, 129, 130]):
+        k = (1 << (L - 1)) + 1 if L > 1 else 1
+        for n in (2, 3, 5):
+            for x in (k ** n - 1, k ** n, k ** n + 1):
+                yield Case("u.nth_root", [hx(x), D(n)])
+                if n % 2:
+                    yield Case("i.nth_root", [hx(-x), D(n)])
+                if k >= 2:
+                    yield Case("u.ilog", [hx(x), hx(k)])
+            if k >= 2:
+                yield Case("u.remove", [hx(k ** n * 3), hx(k)])
+
+
 def base_cases(rng, tier):
     yield from termination_cases(rng, tier)
     yield from panic_condition_cases(rng, tier)
     yield from int_cases(rng, tier)
     yield from float_cases(rng, tier)
     yield from ratio_cases(rng, tier)
+    yield from round5_cases(rng, tier)
 
 
 def generate(rng, tier):
@@ -619,19 +852,37 @@ def release_exe_available():
     return _release["exe"] is not None and os.path.exists(_release["exe"])
 
 
+ALIASES = {"Natural": "dashu_int::UBig", "Integer": "dashu_int::IBig", "Real": "dashu_float::FBig", "Decimal": "dashu_float::DBig",
+           "Rational": "dashu_ratio::RBig"}
+
+
+def _alias_check():
+    """dashu::Natural / Integer / Real / Decimal / Rational must be plain `pub type` aliases of the driven types"""
+    import re
+    try:
+        src = open(os.path.join(core.REPO, "src", "lib.rs")).read()
+    except OSError as e:
+        return "unreadable: %s" % e
+    bad = [n for n, t in ALIASES.items() if not re.search(r"^pub type %s = %s;" % (n, re.escape(t)), src, re.M)]
+    if bad:
+        print("WARNING C16: %s no longer a `pub type` alias of the driven type in src/lib.rs" % ", ".join(bad))
+        return "CHANGED: " + ", ".join(bad)
+    return "ok: " + ", ".join("%s = %s" % kv for kv in ALIASES.items())
+
+
 def pre_build():
     """thorough tier: also build the harness in the release profile (no debug assertions, wrapping arithmetic)"""
     if "VERIF_PANIC_CPU_MS_SET" not in core.ENV:
         core.ENV["VERIF_PANIC_CPU_MS"] = "120000" if _tier_from_argv() == "thorough" else "20000"
         core.ENV.setdefault("VERIF_PANIC_LONG_MS", "360000")
     if _tier_from_argv() != "thorough":
-        return {"release_build": "not built (quick tier runs the debug profile only)"}
+        return {"release_build": "not built (quick tier runs the debug profile only)", "aliases": _alias_check()}
     rc, out, bindir, t = core.cargo_build(profile="release", bins=["exec_panic"])
     if rc != 0:
         return {"release_build": "FAILED", "tail": out.splitlines()[-5:]}
     _release["exe"] = os.path.join(bindir, "exec_panic")
     core.ENV["VERIF_PANIC_RELEASE_EXE"] = _release["exe"]
-    return {"release_build": _release["exe"], "cargo_s": round(t, 1)}
+    return {"release_build": _release["exe"], "cargo_s": round(t, 1), "aliases": _alias_check()}
 
 
 # ------------------------------------------------------------------ predicates of the known findings (known_findings.jsonl)
@@ -801,6 +1052,62 @@ def realloc_too_much_unreachable(args, impl, model):
 def pow_dword_estimate(args, impl, model):
     # 2-word base: 2*exp words exceed MAX_CAPACITY although the result itself does not
     return model == "panic OutOfMemory" and impl == "panic AllocTooMuch" and 2 ** 64 <= abs(_I(args[0])) < 2 ** 128 and 2 * _I(args[1]) > (2 ** 64 - 1) // 64
+
+
+def _ilog(b, n):
+    k = 0
+    while n >= b:
+        n //= b; k += 1
+    return k
+
+
+def _stored_den(args):
+    import math
+    n, d, kind = _I(args[0]), _I(args[1]), args[2]
+    if n == 0:
+        return 1
+    g = math.gcd(abs(n), d) if kind == "k:R" else 2 ** min((abs(n) & -abs(n)).bit_length() - 1, (d & -d).bit_length() - 1)
+    return d // g
+
+
+@_kf
+def to_float_precision_overflow(args, impl, model):
+    # precision + floor(log_B(stored denominator)) > usize::MAX: debug: overflow panic at dashu_float.rs:122; release: wraps
+    prec, base = _I(args[3]), _I(args[4])
+    over = _I(args[0]) != 0 and prec + _ilog(base, _stored_den(args)) > M
+    return over and (("dashu_float.rs:122" in impl and "overflow" in impl) or (impl == "ok" and model.startswith("panic")))
+
+
+@_kf
+def to_float_exact_huge_precision(args, impl, model):
+    # a quotient that terminates in the base (documented: returns) is still scaled by B^(precision + den_digits - num_digits)
+    return model == "ok" and _I(args[3]) >= 2 ** 38 and _I(args[0]) != 0 and impl in ("panic AllocTooMuch", "panic OutOfMemory")
+
+
+@_kf
+def float_precision_usize_overflow(args, impl, model):
+    # the context precision (a usize) enters `2 * precision`, `3 * precision`, `precision + 1`, `precision + guard_digits`
+    # unchecked: debug builds panic with an arithmetic overflow although the (exact) result exists
+    prec = max(_F(a)["prec"] for a in args if a.startswith("f:"))
+    site = any(f in impl for f in ("float/src/mul.rs", "float/src/add.rs", "float/src/exp.rs"))
+    return model == "ok" and site and "with_overflow" in impl and prec > M // 3
+
+
+@_kf
+def float_precision_isize_cast(args, impl, model):
+    # `precision as isize` in FBig::ulp (fbig.rs:400-402) and in repr_cmp (cmp.rs:92,95): precisions >= 2^63 wrap to a negative
+    # isize, precisions near 2^63 overflow the unchecked isize addition / subtraction
+    prec = max(_F(a)["prec"] for a in args if a.startswith("f:"))
+    site = ("float/src/fbig.rs" in impl or "float/src/cmp.rs" in impl) and "with_overflow" in impl
+    return prec >= 2 ** 62 and impl != model and (site or (impl == "ok" and model == "panic ExponentOverflow"))
+
+
+@_kf
+def exp_tiny_argument_cost(args, impl, model):
+    # exp(x) for x -> 0: time and memory follow |exponent(x)|; thresholds = where the 4 GiB cap / the CPU limit is reached
+    a = _F(args[0])
+    tiny = a["exp"] <= (-2 ** 35 if a["base"] == 2 else -2 ** 30)
+    return model == "ok" and tiny and a["signif"] != 0 and impl in ("panic OutOfMemory", "panic AllocTooMuch", "hang")
 
 
 READY = True
